@@ -7,6 +7,7 @@ PROP = {
     "theorems": [
         "Multi.C10.dealloc_by_equal_alloc_partial",
         "Multi.C10.dealloc_by_equal_alloc_history",
+        "Multi.C10.alloc_safe_fixed",
         "Multi.C10.alloc_safe_always_equal",
         "Multi.C10.propagation_follows_traits",
         "Multi.C10.ext_ctor_uses_given",
@@ -25,15 +26,15 @@ PROP = {
                     "swap of arrays whose allocators are unequal and do not propagate on swap is excluded (undefined for standard containers as well)",
                     "zero-based extents; D = 1..3; no failures injected (C09 does that)"],
     "rule": lc.RULE,
-    "level_text": ("Theorems (all 16 trait configurations + select_on_container_copy_construction modes, all instance pairs, all histories): every allocation of an operation is made with the allocator the "
-                   "array reports afterwards; `propagation_follows_traits` (copy/move assignment and swap replace the allocator exactly when POCCA/POCMA/POCS say so, copy construction uses "
-                   "select_on_container_copy_construction), `ext_ctor_uses_given`; the invariant `dealloc_by_equal_alloc` (the allocator stored in the owner of a block equals the one that produced it, and "
-                   "every block is released through an equal allocator) is preserved by every operation outside the finding classes (`…_partial`, lifted to histories), and its NEGATION is proved on concrete "
-                   "witnesses for move assignment, allocator-extended move construction, same-extent copy assignment with POCCA and assignment from a view (`finding_F9*`). "
+    "level_text": ("Theorems (all 16 trait configurations + select_on_container_copy_construction modes, all allocator instances, all histories): for the tree with every repair "
+                   "(F6, F7, F8, F9d, F9, F9c) the FULL statement `alloc_safe_fixed`: along every history every block is owned by, and was released through, an allocator equal to the one "
+                   "that produced it (invariant `dealloc_by_equal_alloc`); `propagation_follows_traits` (copy/move assignment and swap replace the allocator exactly when POCCA/POCMA/POCS say so, "
+                   "copy construction uses select_on_container_copy_construction), `ext_ctor_uses_given`; `dealloc_by_equal_alloc_partial/_history` for any subset of the repairs (operations outside the "
+                   "finding classes of that tree); NEGATIONS on concrete witnesses for the trees without F9 / F9c / F9d (`finding_F9*`). "
                    "Correspondence: per-instance ledger (which instance allocated / deallocated each block) and get_allocator() after every operation, against the model."),
-    "level_note": ("Trusted: Lean kernel, the hand transcription MultiModel/Ledger.lean (validated over all 16 trait configurations and std::pmr with three resources), allocator_traits semantics. "
-                   "Open findings F9 (move assignment / allocator-extended move constructor adopt a foreign block), F9c (POCCA same-extent copy assignment), F9d (temporary built with allocator_type{}; repair in "
-                   "fixes/F9d.patch) are suppressed by operation class only."),
+    "level_note": ("Trusted: Lean kernel, the hand transcription MultiModel/Ledger.lean (validated over all 16 trait configurations and std::pmr with three resources, against the headers "
+                   "with and without each repair), allocator_traits semantics. Swap of unequal allocators that do not propagate on swap is excluded by the precondition (undefined for standard containers too). "
+                   "Findings F9, F9c, F9d are repaired (fixes/F9.patch, F9c.patch, F9d.patch); no open finding."),
 }
 
 
